@@ -127,10 +127,12 @@ pub fn find_enhanced_matches(
     // First, find exact matches using the existing pattern approach
     // Skip this for Original-only mode, as it will be handled in the second pass with strict boundaries
     // Also skip for single-style mode with single-word search (we want compound matches only in that case)
+    // A term typed in camelCase or PascalCase has no separator but is not a single word
     let is_single_word_search = !search.contains('_')
         && !search.contains('-')
         && !search.contains('.')
-        && !search.contains(' ');
+        && !search.contains(' ')
+        && crate::case_model::parse_to_tokens(search).tokens.len() <= 1;
     let is_single_style_search = styles.len() == 1;
     let skip_exact_match = is_single_word_search && is_single_style_search;
 
